@@ -13,9 +13,11 @@
 // timestamp range against NotBefore / NotAfter) are placed exactly on and one nanosecond /
 // microsecond / second off the boundaries.
 //
-// Verifier objects are long-lived (one per policy shape, reused by every case of that shape; see
-// `session`), and a dozen dedicated envelopes whose expiry / NotAfter / NotBefore lies 4 s after
-// the start of the run are verified at the start and again at the end on the same verifier
+// State across calls: two tenants (separate store / validator / verifier objects, same statement and
+// store names), one long-lived verifier per policy shape and tenant, trust store CONTENTS that change
+// from case to case under unchanged names (see `session`): the model is history-free, so anything the
+// implementation remembers - per object or process-wide - disagrees with it sooner or later.  Also,
+// a dozen dedicated envelopes whose expiry / NotAfter / NotBefore lies 4 s after the start of the run are verified at the start and again at the end on the same verifier
 // objects (see "long-lived verifier cases"): a verdict must follow the real clock over the
 // lifetime of a verifier.  Only for those cases the margin is relaxed to a few seconds.
 package c06
@@ -28,6 +30,7 @@ import (
 	"errors"
 	"fmt"
 	"math/rand"
+	"os"
 	"time"
 
 	revresult "github.com/notaryproject/notation-core-go/revocation/result"
@@ -74,9 +77,11 @@ type Input struct {
 	TsaStoresNonEmpty  bool     `json:"tsaStoresNonEmpty"`
 	TsaRevocationError bool     `json:"tsaRevocationError"`
 	TsaRevocation      []string `json:"tsaRevocation"`
+	TsaChainLen        int      `json:"tsaChainLen"`
 }
 
 type Obs struct {
+	Evaluated    bool `json:"evaluated"`
 	ExpiryFailed bool `json:"expiryFailed"`
 	AuthTsFailed bool `json:"authTsFailed"`
 }
@@ -161,6 +166,8 @@ type plan struct {
 	faults    int   // number of faults injected into the countersignature
 	origin    int64 // what the clock reading is called in the model's input (nanoseconds)
 	focus     string
+	stmt      string              // name of the trust policy statement
+	content   map[string][]string // TSA roots ("A","B","C") held by the tsa stores "c06tsa" and "other" in this case
 }
 
 // applies: timestamp verification applies to this plan (used only to steer the generator)
@@ -189,15 +196,40 @@ func (p *plan) rangeInside() bool {
 	return lo*1000000 <= p.genSec*1000000-acc && p.genSec*1000000+acc <= hi*1000000
 }
 
-// cleanBackground: a notary.x509 signature under a policy whose tsa stores hold the issuing TSA's
-// root, timestamp verification applies and the time range is fine - so that the injected fault
-// (or its absence) alone decides the verdict
-func (p *plan) cleanBackground() bool {
-	good := false
-	for _, l := range goodListings {
-		good = good || fmt.Sprint(l) == fmt.Sprint(p.stores)
+// contentOf: the TSA roots the named tsa store holds in this case (the default is the content
+// the stores had before contents became a dimension of the generator)
+func (p *plan) contentOf(store string) []string {
+	if c, ok := p.content[store]; ok {
+		return c
 	}
-	return p.scheme == "x509" && good && p.applies() && p.rangeInside()
+	switch store {
+	case "c06tsa":
+		return []string{"A"}
+	case "other":
+		return []string{"B"}
+	}
+	return nil // "empty", "broken"
+}
+
+// trusted: the TSA root is held by a tsa store that the policy lists, and the listed stores load
+func (p *plan) trusted(root string) bool {
+	if contains(p.stores, "broken") {
+		return false
+	}
+	for _, st := range p.stores {
+		if contains(p.contentOf(st), root) {
+			return true
+		}
+	}
+	return false
+}
+
+// cleanBackground: a notary.x509 signature under a policy whose tsa stores currently hold the root
+// of TSA A (the issuer of all single-fault tokens but those of TSA B / C / D), timestamp
+// verification applies and the time range is fine - so that the injected fault (or its absence)
+// alone decides the verdict
+func (p *plan) cleanBackground() bool {
+	return p.scheme == "x509" && p.trusted("A") && p.applies() && p.rangeInside()
 }
 
 // genPlan steers the raw generator: 35% single countersignature fault on a clean background,
@@ -317,6 +349,14 @@ func genPlanRaw(r *rand.Rand) plan {
 	p.nb, p.na, mode = genWindows(r)
 	lo, hi := intersection(p.nb, p.na)
 	p.stores = genListing(r)
+	// What the tsa stores hold is part of the case: the same statement name and store list meet
+	// different anchors over the run (TSA rotated, distrusted, newly trusted; another tenant's
+	// store of the same name), on the same and on different verifier and trust store objects.
+	p.content = map[string][]string{
+		"c06tsa": pick(r, []string{"A"}, []string{"A"}, []string{"A"}, []string{"A"}, []string{"A"}, []string{"B"}, []string{"B"}, []string{"A", "B"}, []string{"C"}, []string{"B", "C"}),
+		"other":  pick(r, []string{"B"}, []string{"B"}, []string{"B"}, []string{"A"}, []string{"C"}),
+	}
+	p.stmt = pick(r, "c06", "c06", "c06", "c06-second-statement")
 	p.option = pick(r, "unset", "always", "afterCertExpiry", "afterCertExpiry")
 
 	// signing time: relative to the common interval of the windows, boundaries included
@@ -402,6 +442,9 @@ func genPlanRaw(r *rand.Rand) plan {
 		case 15:
 			// not a fault when the timestamp predates the TSA certificate's expiry
 			p.token, p.tokenKind = "expired", "tsaCertExpiredNow"
+		case 16:
+			// the validator does not answer with one result per TSA certificate (the chain has two)
+			p.rev, p.tokenKind = pick(r, []string{}, []string{"ok"}, []string{"ok", "ok", "ok"}, []string{"nonRevokable"}, []string{"ok", "ok", "revoked"}), "revocationResultCount"
 		}
 	}
 	switch x := r.Intn(100); {
@@ -413,11 +456,11 @@ func genPlanRaw(r *rand.Rand) plan {
 			p.rev = pick(r, []string{"nonRevokable", "ok"}, []string{"ok", "nonRevokable"}, []string{"nonRevokable", "nonRevokable"})
 		}
 	case x < 88:
-		fault(r.Intn(16))
+		fault(r.Intn(17))
 	default:
-		fault(r.Intn(16))
+		fault(r.Intn(17))
 		k := p.tokenKind
-		fault(r.Intn(16))
+		fault(r.Intn(17))
 		_ = k
 		p.tokenKind = "twoFaults"
 	}
@@ -564,8 +607,10 @@ func concretise(w *world, p plan, id int, ref time.Time) *prepared {
 
 	in := Input{Scheme: p.scheme, SigningTime: rel(signingTime), Option: p.option,
 		TsaListed: len(p.stores) > 0, TsaStoresLoad: !contains(p.stores, "broken"),
-		TsaStoresNonEmpty:  contains(p.stores, "c06tsa") || contains(p.stores, "other"),
-		TsaRevocationError: p.revErr, TsaRevocation: p.rev}
+		TsaRevocationError: p.revErr, TsaRevocation: p.rev, TsaChainLen: 2}
+	for _, st := range p.stores {
+		in.TsaStoresNonEmpty = in.TsaStoresNonEmpty || len(p.contentOf(st)) > 0
+	}
 	for k, c := range chain.Certs {
 		in.Chain = append(in.Chain, Window{rel(c.Cert.NotBefore), rel(c.Cert.NotAfter)})
 		if !c.Cert.NotBefore.Equal(nbT[k]) || !c.Cert.NotAfter.Equal(naT[k]) {
@@ -594,13 +639,13 @@ func concretise(w *world, p plan, id int, ref time.Time) *prepared {
 		gen := at(p.genSec)
 		token = tsa.Token(TokenOpts{Message: msg, GenTime: gen, AccSeconds: p.accS, AccMillis: p.accMs, AccMicros: p.accUs,
 			Baseline: p.baseline, BadSignature: p.badSig})
-		rootStore := map[string]string{"A": "c06tsa", "B": "other", "nonCrit": "c06tsa", "codeSign": "c06tsa", "twoEKU": "c06tsa",
-			"badKU": "c06tsa", "short": "c06tsa", "expired": "c06tsa"}[p.token] // C and caStore: no tsa store
+		root := map[string]string{"A": "A", "B": "B", "C": "C", "caStore": "D", "nonCrit": "A", "codeSign": "A", "twoEKU": "A",
+			"badKU": "A", "short": "A", "expired": "A"}[p.token] // D is held by the ca / signingAuthority store only
 		validAt := func(c *x509.Certificate) bool { return !gen.Before(c.NotBefore) && !gen.After(c.NotAfter) }
 		purposeOK := p.token != "nonCrit" && p.token != "codeSign" && p.token != "twoEKU"
 		in.Token = &Token{Parses: true, ImprintMatches: !p.wrongMsg, GenTime: rel(gen),
 			AccSeconds: p.accS, AccMillis: p.accMs, AccMicros: p.accUs, BaselinePolicy: p.baseline,
-			TsaRootListed: rootStore != "" && contains(p.stores, rootStore) && in.TsaStoresLoad,
+			TsaRootListed: p.trusted(root),
 			TsaCertOk:     purposeOK && !p.badSig && validAt(tsa.Leaf.Cert) && validAt(tsa.Root.Cert),
 			ChainRulesOk:  p.token != "badKU"}
 	}
@@ -614,11 +659,16 @@ type ociVerifier interface {
 	Verify(ctx context.Context, desc ocispec.Descriptor, signature []byte, opts notation.VerifierVerifyOptions) (*notation.VerificationOutcome, error)
 }
 
-// session keeps verifier objects alive: one verifier is built per policy shape (trust store list x
-// verifyTimestamp option) and reused by every later case with the same shape, over one trust store
-// and one timestamping revocation validator whose contents are re-scripted for every case.  Any
-// per-instance memoisation in the verifier (of the clock, of a chain's validity, of a timestamp
-// result) therefore shows up as a disagreement with the model.
+// session is one "tenant": a trust store object, a timestamping revocation validator and the
+// verifier objects built over them.  Verifiers are long-lived: one is built per policy shape
+// (statement name x trust store list x verifyTimestamp option) and reused by every later case of
+// that shape, while the CONTENTS of the trust stores (the signing root under ca:c06 /
+// signingAuthority:c06, the TSA roots under tsa:c06tsa and tsa:other) and the validator's script
+// change from case to case.  Two tenants with the same statement and store names run interleaved,
+// and every tenth case runs on a brand-new verifier over brand-new store objects.  Any state the
+// implementation keeps across calls - per verifier object or process-wide, of the clock, of a
+// chain's validity, of trust anchors, of a timestamp or revocation result - therefore shows up
+// as a disagreement with the (history-free) model.
 type session struct {
 	w         *world
 	store     *common.MemStore
@@ -629,14 +679,12 @@ type session struct {
 
 func newSession(w *world) *session {
 	s := &session{w: w, store: common.NewMemStore(), rev: &common.ScriptedRevocation{}, verifiers: map[string]ociVerifier{}, uses: map[string]int{}}
-	s.store.Certs["tsa:c06tsa"] = []*x509.Certificate{w.tsaA.Root.Cert}
-	s.store.Certs["tsa:other"] = []*x509.Certificate{w.tsaB.Root.Cert}
 	s.store.Empty["tsa:empty"] = true
 	s.store.Errs["tsa:broken"] = errors.New("scripted load failure")
 	return s
 }
 
-func (s *session) newVerifier(trustStores []string, option string) ociVerifier {
+func (s *session) newVerifier(stmt string, trustStores []string, option string) ociVerifier {
 	sv := trustpolicy.SignatureVerification{VerificationLevel: "strict",
 		Override: map[trustpolicy.ValidationType]trustpolicy.ValidationAction{
 			trustpolicy.TypeExpiry:             trustpolicy.ActionLog,
@@ -647,7 +695,7 @@ func (s *session) newVerifier(trustStores []string, option string) ociVerifier {
 		sv.VerifyTimestamp = trustpolicy.TimestampOption(option)
 	}
 	doc := &trustpolicy.OCIDocument{Version: "1.0", TrustPolicies: []trustpolicy.OCITrustPolicy{{
-		Name: "c06", RegistryScopes: []string{"*"}, SignatureVerification: sv,
+		Name: stmt, RegistryScopes: []string{"*"}, SignatureVerification: sv,
 		TrustStores: append([]string{}, trustStores...), TrustedIdentities: []string{"*"},
 	}}}
 	v, err := verifier.NewVerifierWithOptions(s.store, verifier.VerifierOptions{OCITrustPolicy: doc, RevocationTimestampingValidator: s.rev})
@@ -657,33 +705,44 @@ func (s *session) newVerifier(trustStores []string, option string) ociVerifier {
 	return v
 }
 
-// verifierFor returns the long-lived verifier of the policy shape, or a brand-new one.
-func (s *session) verifierFor(q *prepared, fresh bool) ociVerifier {
-	if fresh {
-		return s.newVerifier(q.trustStores, q.p.option)
+func stmtOf(p *plan) string {
+	if p.stmt == "" {
+		return "c06"
 	}
-	key := fmt.Sprint(q.trustStores, q.p.option)
+	return p.stmt
+}
+
+// verifierFor returns the long-lived verifier of the policy shape.
+func (s *session) verifierFor(q *prepared) ociVerifier {
+	key := fmt.Sprint(stmtOf(&q.p), q.trustStores, q.p.option)
 	v, ok := s.verifiers[key]
 	if !ok {
-		v = s.newVerifier(q.trustStores, q.p.option)
+		v = s.newVerifier(stmtOf(&q.p), q.trustStores, q.p.option)
 		s.verifiers[key] = v
 	}
 	s.uses[key]++
 	return v
 }
 
-// execute runs the real verifier.Verify on the prepared case and observes the two results.
-// It returns the clock readings taken immediately before and after the call.
-func (s *session) execute(q *prepared, fresh bool) (Obs, time.Time, time.Time) {
+// script puts the case's world into the tenant's trust store and revocation validator.
+func (s *session) script(q *prepared) {
 	p := q.p
 	s.store.Reset()
 	s.store.Certs[q.storeType+":c06"] = []*x509.Certificate{q.root, s.w.caStoreTS.Root.Cert}
+	roots := map[string]*x509.Certificate{"A": s.w.tsaA.Root.Cert, "B": s.w.tsaB.Root.Cert, "C": s.w.tsaC.Root.Cert}
+	for _, st := range []string{"c06tsa", "other"} {
+		var certs []*x509.Certificate
+		for _, r := range p.contentOf(st) {
+			certs = append(certs, roots[r])
+		}
+		s.store.Certs["tsa:"+st] = certs
+	}
 	s.rev.Calls = nil
 	s.rev.Results = func(c []*x509.Certificate) ([]*revresult.CertRevocationResult, error) {
 		if p.revErr {
 			return nil, errors.New("scripted validator failure")
 		}
-		if len(c) != len(p.rev) {
+		if len(c) != q.in.TsaChainLen {
 			panic(fmt.Sprintf("c06: TSA chain of length %d handed to the validator", len(c)))
 		}
 		out := make([]*revresult.CertRevocationResult, len(p.rev))
@@ -692,10 +751,34 @@ func (s *session) execute(q *prepared, fresh bool) (Obs, time.Time, time.Time) {
 		}
 		return out, nil
 	}
-	v := s.verifierFor(q, fresh)
+}
+
+// execute runs the real verifier.Verify on the prepared case and observes the two results.
+// fresh: on a brand-new verifier over brand-new trust store / validator objects instead of the
+// tenant's long-lived ones.  It returns the clock readings taken immediately before and after the call.
+func (s *session) execute(q *prepared, fresh bool) (Obs, time.Time, time.Time) {
+	var v ociVerifier
+	if fresh {
+		t := newSession(s.w)
+		t.script(q)
+		v = t.newVerifier(stmtOf(&q.p), q.trustStores, q.p.option)
+	} else {
+		s.script(q)
+		v = s.verifierFor(q)
+	}
 	before := time.Now()
-	outcome, verr := v.Verify(context.Background(), target, q.sigBlob, notation.VerifierVerifyOptions{
-		ArtifactReference: "reg.example/c06@" + target.Digest.String(), SignatureMediaType: common.MediaJWS})
+	var outcome *notation.VerificationOutcome
+	var verr error
+	func() {
+		defer func() {
+			if r := recover(); r != nil {
+				// a crash of the verifier is an observation (nothing was evaluated), not a harness failure
+				outcome, verr = &notation.VerificationOutcome{}, fmt.Errorf("panic: %v", r)
+			}
+		}()
+		outcome, verr = v.Verify(context.Background(), target, q.sigBlob, notation.VerifierVerifyOptions{
+			ArtifactReference: "reg.example/c06@" + target.Digest.String(), SignatureMediaType: common.MediaJWS})
+	}()
 	after := time.Now()
 	if outcome == nil {
 		panic(fmt.Sprintf("c06: nil outcome: %v", verr))
@@ -708,17 +791,14 @@ func (s *session) execute(q *prepared, fresh bool) (Obs, time.Time, time.Time) {
 			o.ExpiryFailed, seenE = r.Error != nil, true
 		case trustpolicy.TypeAuthenticTimestamp:
 			o.AuthTsFailed, seenT = r.Error != nil, true
-		default:
-			if r.Error != nil {
-				panic(fmt.Sprintf("c06: unexpected %s failure: %v", r.Type, r.Error))
-			}
 		}
 	}
-	if !seenE || !seenT {
-		panic(fmt.Sprintf("c06: expiry / authenticTimestamp result missing: %v", verr))
-	}
-	if verr != nil {
-		panic(fmt.Sprintf("c06: verification error although both validations only log: %v", verr))
+	// The scenario makes integrity and authenticity pass (the chain's root is in the listed store
+	// of the scheme's type), so both results must be there; if an earlier validation stopped the
+	// verification the case is reported as "not evaluated" - a violation with a replay, not a crash.
+	o.Evaluated = seenE && seenT && verr == nil
+	if !o.Evaluated {
+		o.ExpiryFailed, o.AuthTsFailed = false, false
 	}
 	return o, before, after
 }
@@ -731,6 +811,9 @@ func runCase(s *session, p plan, id int) (Input, Obs) {
 	now0 := time.Now()
 	q := concretise(s.w, p, id, now0.Truncate(time.Second))
 	o, _, after := s.execute(q, id%10 == 9)
+	if !o.Evaluated {
+		fmt.Fprintf(os.Stderr, "c06: case %d: expiry / authenticTimestamp were not evaluated\n", id)
+	}
 	if d := after.Sub(now0); d > 20*time.Second {
 		panic(fmt.Sprintf("c06: a case took %v, the clock margins are no longer safe", d))
 	}
@@ -931,16 +1014,34 @@ func Run(c *common.Ctx) error {
 	if err := selfCheck(w); err != nil {
 		return err
 	}
-	s := newSession(w)
+	// two tenants: separate trust store / validator / verifier objects, same statement and store names
+	tenants := []*session{newSession(w), newSession(w)}
+	s := tenants[0]
 	T, ll := startLongLived(c, s)
+	lastTrust := map[string]bool{} // statement name + store list -> was the last token's TSA root trusted there?
 	total := 2500
 	if c.Thorough() {
 		total = 24000
 	}
 	for id := 0; id < total; id++ {
 		p := genPlan(c.Rand)
-		in, obs := runCase(s, p, id)
+		in, obs := runCase(tenants[id%2], p, id)
 		c.Emit(in, obs)
+		if in.Token != nil && in.Token.Parses && p.scheme == "x509" {
+			key := fmt.Sprint(stmtOf(&p), p.stores)
+			if was, seen := lastTrust[key]; seen && was != in.Token.TsaRootListed {
+				if was {
+					c.Count("history=same statement+stores: TSA root trusted, then not")
+				} else {
+					c.Count("history=same statement+stores: TSA root not trusted, then trusted")
+				}
+			}
+			lastTrust[key] = in.Token.TsaRootListed
+		}
+		c.Count(fmt.Sprintf("tsaStoreContent=c06tsa%v other%v", p.contentOf("c06tsa"), p.contentOf("other")))
+		if !obs.Evaluated {
+			c.Count("evaluated=false")
+		}
 		c.Count("scheme=" + p.scheme)
 		c.Count("option=" + p.option)
 		c.Count("focus=" + p.focus)
@@ -966,14 +1067,17 @@ func Run(c *common.Ctx) error {
 		}
 	}
 	finishLongLived(c, s, T, ll)
-	maxUses := 0
-	for _, n := range s.uses {
-		if n > maxUses {
-			maxUses = n
+	maxUses, shapes := 0, 0
+	for _, t := range tenants {
+		shapes += len(t.verifiers)
+		for _, n := range t.uses {
+			if n > maxUses {
+				maxUses = n
+			}
 		}
 	}
-	c.Note("random product of: scheme x chain length 1..4 with independent per-certificate windows (valid / one expired / one not yet valid / mixed / barely valid at 60 s / expired long ago) x signing time on, one ns / one s off and far from the window boundaries x expiry absent / past / future x tsa store listings (none, listed, other, both, empty, failing, duplicate; any position) x verifyTimestamp unset/always/afterCertExpiry x countersignature (absent, garbage, good, 16 single faults, double faults) x time range (inside, on the boundaries, 1 us / 1 ms / 1 s outside, before, after, huge accuracy, baseline-policy default accuracy); hand-assembled ES256 JWS envelopes, local RFC 3161 TSA, real verifier.Verify with expiry/authenticTimestamp set to log. `now` is the harness's clock reading; everything compared with the clock is at least 60 s away from it.")
-	c.Note("verifier objects are long-lived: one per policy shape (%d shapes, the busiest used %d times), reused by all cases of that shape over one re-scripted trust store / revocation validator; every tenth case uses a brand-new verifier.", len(s.verifiers), maxUses)
+	c.Note("random product of: scheme x chain length 1..4 with independent per-certificate windows (valid / one expired / one not yet valid / mixed / barely valid at 60 s / expired long ago) x signing time on, one ns / one s off and far from the window boundaries x expiry absent / past / future x tsa store listings (none, listed, other, both, empty, failing, duplicate; any position) x verifyTimestamp unset/always/afterCertExpiry x countersignature (absent, garbage, good, 17 single faults, double faults) x time range (inside, on the boundaries, 1 us / 1 ms / 1 s outside, before, after, huge accuracy, baseline-policy default accuracy); hand-assembled ES256 JWS envelopes, local RFC 3161 TSA, real verifier.Verify with expiry/authenticTimestamp set to log. `now` is the harness's clock reading; everything compared with the clock is at least 60 s away from it.")
+	c.Note("state across calls: two tenants (separate trust store, validator and verifier objects, same statement and store names) run interleaved; per tenant one long-lived verifier per policy shape (statement name x store list x option: %d verifier objects, the busiest used %d times); the contents of the stores change from case to case under unchanged names - the signing root under ca:c06 / signingAuthority:c06 is new in every case, tsa:c06tsa and tsa:other hold varying subsets of three TSA roots - so the same statement name and store list see a TSA root trusted-then-distrusted and distrusted-then-trusted many times (history=... counters), on the same verifier, on the other tenant's, and on the brand-new verifier over brand-new store objects that every tenth case uses; the validator answers with 0..3 results for the 2-certificate TSA chain.", shapes, maxUses)
 	c.Note("long-lived-verifier cases (%d envelopes): expiry / NotAfter / NotBefore = T+4 s, verified on a long-lived verifier at T (phase 1) and again, after the whole case stream, at >= T+7 s on the SAME verifier and on a new one (phase 2); for these cases only, the clock margin is relaxed from 60 s to >= 1.5 s (phase 1) / >= 3 s (phase 2); they test that verdicts follow the real clock over a verifier's lifetime, not boundaries; a case whose margin was lost to a stall is skipped and counted.", len(ll))
 	return nil
 }
